@@ -98,9 +98,29 @@ func New() *Interp {
 	return in
 }
 
-// Run evaluates chunk p with the given arguments.
-func Run(p *prog.Prog, args []Value) (res Result) {
+// Options bound a reference run.  Zero fields keep the defaults (20000
+// evaluation steps, 120 nested non-tail activations).
+type Options struct {
+	MaxSteps int
+	MaxDepth int
+}
+
+// Run evaluates chunk p with the given arguments (each nil, bool, int64,
+// float64 or string) under the default bounds.
+func Run(p *prog.Prog, args []Value) Result { return RunOpts(p, args, Options{}) }
+
+// RunOpts is Run with explicit bounds.  A run that exceeds MaxSteps reports
+// Diverge; one that exceeds MaxDepth, or does anything else the manual leaves
+// open, reports Unspec (the reason is in Result.Unspec).  In both cases the
+// program must not be compared.
+func RunOpts(p *prog.Prog, args []Value, o Options) (res Result) {
 	in := New()
+	if o.MaxSteps > 0 {
+		in.MaxSteps = o.MaxSteps
+	}
+	if o.MaxDepth > 0 {
+		in.MaxDepth = o.MaxDepth
+	}
 	defer in.killCoros()
 	defer func() {
 		res.Trace = in.Trace
